@@ -139,16 +139,18 @@ func (P *Program) expandAuto(c *Contract, fn *ssa.Function) error {
 		return nil
 	}
 	if len(c.Keeps) == 0 {
-		c.Keeps = append(c.Keeps, "PrintCtx.off", "PrintCtx.lvl")
+		// fields of the per-record context that only set/setentry write
+		c.Keeps = append(c.Keeps, "PrintCtx.off", "PrintCtx.lvl", "PrintCtx.msg", "PrintCtx.kvps", "PrintCtx.now", "PrintCtx.stackFrame",
+			"PrintCtx.jsonMode", "PrintCtx.noColor", "PrintCtx.layout", "PrintCtx.utcTime", "PrintCtx.noQuoted", "PrintCtx.dedupeAttrs")
 	}
 	for _, p := range fn.Params {
 		switch pt := p.Type().Underlying().(type) {
 		case *types.Pointer:
-			if _, ok := pt.Elem().Underlying().(*types.Struct); !ok {
-				continue
-			}
 			if err := add(&c.Requires, "[auto.nonnil] "+p.Name()+" != nil"); err != nil {
 				return err
+			}
+			if _, ok := pt.Elem().Underlying().(*types.Struct); !ok {
+				continue
 			}
 			if strings.HasSuffix(typeName(pt.Elem()), "logg/slog.PrintCtx") {
 				// representation invariant of the record buffer (bytes.Buffer's): 0 <= off <= len(buf)
@@ -169,6 +171,9 @@ func (P *Program) expandAuto(c *Contract, fn *ssa.Function) error {
 				if err := add(&c.Ensures, "[auto.pcinv] "+inv); err != nil {
 					return err
 				}
+				if err := add(&c.LoopAll, "[auto.pcinv] "+inv); err != nil {
+					return err
+				}
 				if err := add(&c.Ensures, "[auto.pcoff] implies(old("+p.Name()+".off) == 0, "+p.Name()+".off == 0)"); err != nil {
 					return err
 				}
@@ -179,6 +184,9 @@ func (P *Program) expandAuto(c *Contract, fn *ssa.Function) error {
 				}
 				// per-record configuration fields are written by set/setentry only
 				if err := add(&c.Ensures, "[auto.pcconfig] "+strings.Join(eqs, " && ")); err != nil {
+					return err
+				}
+				if err := add(&c.LoopAll, "[auto.pcconfig] "+strings.Join(eqs, " && ")); err != nil {
 					return err
 				}
 			}
@@ -203,6 +211,9 @@ func (P *Program) expandAuto(c *Contract, fn *ssa.Function) error {
 					return err
 				}
 				if err := add(&c.Ensures, "[auto.pcinv] "+inv); err != nil {
+					return err
+				}
+				if err := add(&c.LoopAll, "[auto.pcinv] "+inv); err != nil {
 					return err
 				}
 			}
